@@ -183,6 +183,41 @@ for nm, tab, rec, sub in ACCESS:
                       props=['C11', 'C01'], timeout=300, post='  if (g_bt_present) { CANARY("equal entry present reachable"); }',
                       note='the table is searched once for the given value; present => its index and no growth; absent => appended at index old size with exactly the given value'))
 
+# ---------------------------------------------------------------- C19: copies of a block (CdnsBlock::operator=, CdnsBlockRead::operator=)
+def copy_contract(read):
+    def gen(ast, L, tf):
+        b = '$this->base.' if read else '$this->'
+        r = '$1->base.' if read else '$1->'
+        c = '''
+__CPROVER_requires(__CPROVER_w_ok($this, sizeof(*$this)) && __CPROVER_r_ok($1, sizeof(*$1)) && g_exc == 0)
+__CPROVER_assigns(__CPROVER_object_whole($this), umap_AddressEventCount_u64__cur)
+__CPROVER_ensures(g_exc == 0 && $ret == $this)
+'''
+        for t, rec in [(a[1], a[2]) for a in ACCESS]:
+            c += '__CPROVER_ensures(%(b)s%(t)s.n == %(r)s%(t)s.n && %(b)s%(t)s.wi == %(r)s%(t)s.wi && ($this == $1 || %(eq)s))\n' % {
+                'b': b, 'r': r, 't': t, 'eq': _eq(ast, L, None, rec, b + t + '.wv', r + t + '.wv')}
+        for t in ('m_query_responses', 'm_address_event_counts', 'm_malformed_messages'):
+            c += '__CPROVER_ensures(%(b)s%(t)s.n == %(r)s%(t)s.n && %(b)s%(t)s.wi == %(r)s%(t)s.wi)\n' % {'b': b, 'r': r, 't': t}
+        c += ('__CPROVER_ensures(%(b)sm_block_preamble.earliest_time.m_secs == %(r)sm_block_preamble.earliest_time.m_secs && %(b)sm_block_preamble.earliest_time.m_ticks == %(r)sm_block_preamble.earliest_time.m_ticks)\n'
+              '__CPROVER_ensures((%(b)sm_block_statistics.has != 0) == (%(r)sm_block_statistics.has != 0))\n'
+              '__CPROVER_ensures(%(b)sm_block_parameters.storage_parameters.ticks_per_second == %(r)sm_block_parameters.storage_parameters.ticks_per_second)\n'
+              '__CPROVER_ensures(%(b)sm_query_responses.wv.time_offset.has == %(r)sm_query_responses.wv.time_offset.has && %(b)sm_query_responses.wv.client_port.val == %(r)sm_query_responses.wv.client_port.val)\n') % {'b': b, 'r': r}
+        if read:
+            c += '__CPROVER_ensures($this == $1 || ($this->m_qr_read == 0 && $this->m_mm_read == 0 && ($this->m_aec_read == 0 || $this->m_aec_read == &umap_AddressEventCount_u64__cur)))\n'
+        return c
+    return gen
+
+
+for uid, mn, rd in (('blk.copy_assign', '_ZN4CDNS9CdnsBlockaSERS0_', False), ('blk.read_copy_assign', '_ZN4CDNS13CdnsBlockReadaSERS0_', True)):
+    rec = 'CdnsBlockRead' if rd else 'CdnsBlock'
+    UNITS.append(Unit(uid, ('@' + mn, None), contract=copy_contract(rd), prelude=P, pre_c=PRE_C, extern_records=EXT,
+                      stubs=['BlockTable_[A-Za-z]+__op_assign__p_bt_[A-Za-z]+', 'seq_[A-Za-z0-9_]+__assign', 'umap_[A-Za-z0-9_]+__(assign|begin)'],
+                      replace=(['blk.copy_assign'] if rd else []), auto_inline=ACC_AUTO,
+                      setup='  static struct %s obj, src;\n' % rec, args=['&obj', '&src'], props=['C19'], timeout=600,
+                      note='copy assignment of a block: every table and item array of the copy has the entries of the source (each table through BlockTable\'s copy assignment, '
+                           'btr.<T>.copy_assign), preamble, statistics and parameters are copied, the source is not written (frame)'
+                           + ('; the copy\'s read positions restart on the copy\'s own containers' if rd else '')))
+
 from item_units import TRUSTED_BASE as _TB, ASSUMPTIONS as _AS
 TRUSTED_BASE = _TB + ['A7 BlockTable<T> as seen by CdnsBlock: a sequence in index order with size(); std::unordered_map iteration visits every entry once']
 ASSUMPTIONS = _AS + ['table and array sizes < 2^56', 'ticks_per_second >= 1']
